@@ -1167,6 +1167,60 @@ def antlr_defaults(tier):
     return out, 'installed antlr4 runtime source'
 
 
+def rule_codecs_strict(cm, rep, rid):
+    rep.rule(rid, 'between bytes and text nothing is lost or rewritten, and nothing depends on the process: in the compiler module '
+                  'no decode/encode/open/stream call asks for a lenient error handler (errors=ignore/replace/backslashreplace..), '
+                  'every encoding that is named is UTF-8, and no source is opened for reading in text mode without naming one '
+                  '(the locale would choose)')
+    n = 0
+    for f in cm.repo.all_functions(('compiler',)):
+        for x in own_nodes_ordered(f.node):
+            if not isinstance(x, ast.Call):
+                continue
+            fn = norm(x.func)
+            last = fn.split('.')[-1]
+            kws = {k.arg: k.value for k in x.keywords if k.arg}
+            io_call = last in ('open', 'open_file', 'decode', 'encode', 'FileStream', 'StdinStream', 'TextIOWrapper', 'reconfigure', 'fdopen',
+                               'read_text', 'write_text', 'getreader', 'getwriter', 'str', 'bytes')
+            if not io_call and 'errors' not in kws and 'encoding' not in kws:
+                continue
+            n += 1
+            key = '%s:%s' % (f.qname, norm(x)[:50])
+            errs = kws.get('errors')
+            if errs is None and last in ('decode', 'encode') and len(x.args) > 1:
+                errs = x.args[1]
+            if errs is None and last in ('str', 'bytes') and len(x.args) > 2:
+                errs = x.args[2]
+            enc = kws.get('encoding')
+            if enc is None and last in ('decode', 'encode') and x.args:
+                enc = x.args[0]
+            if enc is None and last == 'FileStream' and len(x.args) > 1:
+                enc = x.args[1]
+            if enc is None and last == 'StdinStream' and x.args:
+                enc = x.args[0]
+            if isinstance(enc, ast.Name):
+                r = cm.repo.resolve_name(f, enc.id)
+                if r and r[0] == 'var' and isinstance(r[2], ast.Constant):
+                    enc = r[2]
+            bad = None
+            if errs is not None and not (isinstance(errs, ast.Constant) and errs.value in ('strict', None)):
+                bad = 'bytes that do not fit are silently dropped or replaced (errors=%s): the text that is compiled, or written, is ' \
+                      'not the text that was given' % norm(errs)
+            elif isinstance(enc, ast.Constant) and isinstance(enc.value, str) and enc.value.lower().replace('-', '').replace('_', '') != 'utf8':
+                bad = 'the encoding %r differs from the UTF-8 every other input and output uses' % enc.value
+            elif last in ('open', 'open_file') and enc is None:
+                mode = x.args[1] if len(x.args) > 1 else kws.get('mode')
+                m = mode.value if isinstance(mode, ast.Constant) and isinstance(mode.value, str) else ('r' if mode is None else None)
+                if m is not None and 'b' not in m and not any(c in m for c in 'wax'):
+                    bad = 'a source is opened for reading as text without an encoding: the locale of the process decides how its ' \
+                          'bytes are read, so the same file compiles to different code in different environments'
+            if bad:
+                rep.violation(rid, key, bad, f.loc(x))
+            else:
+                rep.ok(rid, key, 'strict' + (', %s' % enc.value if isinstance(enc, ast.Constant) else ''), f.loc(x), nontrivial=io_call)
+    rep.minimum('byte/text conversions in the compiler module', n, 2)
+
+
 def rule_one_decoding(cm, rep, rid, tier):
     rep.rule(rid, 'all byte-decoding input-stream constructors (FileStream, StdinStream) get the same explicit encoding, or all '
                   'rely on the same default of the ANTLR runtime')
@@ -1191,7 +1245,8 @@ def rule_one_decoding(cm, rep, rid, tier):
                 if enc is None and cls == 'StdinStream' and len(x.args) > 0 and isinstance(x.args[0], ast.Constant):
                     enc = x.args[0].value
                 sites.append((f, x, cls, (enc or defaults[cls])))
-    rep.minimum('byte-decoding stream constructors', len(sites), 1)
+    if not sites:
+        rep.ok(rid, 'stream constructors', 'no ANTLR byte-stream constructor is used (see the rule on conversions)', None, nontrivial=False)
     # sources read through Python's text I/O: universal newlines rewrite \r\n and \r, the byte streams do not
     for f in cm.repo.all_functions(('compiler',)):
         for x in own_nodes_ordered(f.node):
